@@ -1,12 +1,16 @@
 from flamapy.core.transformations import ModelToText
 
-from flamapy.core.models.ast import Node
+from flamapy.core.models.ast import Node, ASTOperation
 from flamapy.metamodels.fm_metamodel.models import (
     Feature,
     FeatureModel,
     Relation,
     Attribute
 )
+
+
+# Keywords of the AFM language that differ from the name of the AST operation
+AFM_OPERATORS = {ASTOperation.EQUIVALENCE: 'IFF'}
 
 
 class AFMWriter(ModelToText):
@@ -122,19 +126,19 @@ class AFMWriter(ModelToText):
         return result
 
     def recursive_constraint_read(self, node: Node) -> str:
+        if not node.is_op():
+            return " " + str(node.data) + " "
 
-        data = node.data
+        data = AFM_OPERATORS.get(node.data, node.data.value.upper())
+        operands = [self.read_operand(operand)
+                    for operand in (node.left, node.right) if operand is not None]
+        if len(operands) == 1:  # NOT
+            return data + operands[0]
+        return operands[0] + data + operands[1]
+
+    def read_operand(self, node: Node) -> str:
+        """Operands that are expressions themselves are written between parentheses."""
+        result = self.recursive_constraint_read(node)
         if node.is_op():
-            data = data.value.upper()
-
-        if node.left and node.right:
-            result = self.recursive_constraint_read(
-                node.left) + data + self.recursive_constraint_read(node.right)
-        elif not node.left and node.right:
-            result = data + self.recursive_constraint_read(node.right)
-        elif node.left and not node.right:
-            result = self.recursive_constraint_read(node.left) + node.data
-        else:
-            result = " " + data + " "
-
+            result = " (" + result.strip() + ") "
         return result
